@@ -22,32 +22,38 @@ func Tokens(alpha []string, maxLen int, visit func(s []byte, n int) bool) {
 }
 
 // TokensSharded is like Tokens but partitions the space over shards by the
-// first two tokens (so that pruning stays effective inside a shard). Texts of
-// a single token are visited in every shard (needed for pruning); callers
-// that count should count them in shard 0 only.
-func TokensSharded(alpha []string, maxLen int, shard, nshards int, visit func(s []byte, n int) bool) {
+// first SplitDepth tokens (so that pruning stays effective inside a shard and
+// the load is balanced). Shorter texts are visited in every shard (needed for
+// pruning); visit is told so through dup=true for all shards but shard 0, and
+// callers that count should ignore those.
+func TokensShardedAt(alpha []string, maxLen, splitDepth int, shard, nshards int, visit func(s []byte, n int, dup bool) bool) {
+	if splitDepth >= maxLen {
+		splitDepth = maxLen - 1
+	}
+	if splitDepth < 0 {
+		splitDepth = 0
+	}
 	buf := make([]byte, 0, 64)
-	top := 0
+	top := 0 // running number of the partition-level text; identical in every shard because shared levels are visited identically
 	var rec func(depth int)
 	rec = func(depth int) {
 		for _, t := range alpha {
 			l := len(buf)
 			buf = append(buf, t...)
+			n := depth + 1
 			switch {
-			case depth == 0:
-				if visit(buf, 1) && maxLen > 1 {
-					rec(1)
-				} else {
-					top += len(alpha)
+			case n <= splitDepth: // shared prefix level: every shard visits it
+				if visit(buf, n, shard != 0) && n < maxLen {
+					rec(depth + 1)
 				}
-			case depth == 1:
+			case n == splitDepth+1: // partition level
 				mine := top%nshards == shard
 				top++
-				if mine && visit(buf, 2) && maxLen > 2 {
-					rec(2)
+				if mine && visit(buf, n, false) && n < maxLen {
+					rec(depth + 1)
 				}
 			default:
-				if visit(buf, depth+1) && depth+1 < maxLen {
+				if visit(buf, n, false) && n < maxLen {
 					rec(depth + 1)
 				}
 			}
@@ -55,4 +61,9 @@ func TokensSharded(alpha []string, maxLen int, shard, nshards int, visit func(s 
 		}
 	}
 	rec(0)
+}
+
+// TokensSharded splits after the first token (texts of one token are visited in every shard).
+func TokensSharded(alpha []string, maxLen int, shard, nshards int, visit func(s []byte, n int) bool) {
+	TokensShardedAt(alpha, maxLen, 1, shard, nshards, func(s []byte, n int, dup bool) bool { return visit(s, n) })
 }
